@@ -285,7 +285,7 @@ func (h *harness) eval(mode consensus.ConsensusMode, pool, total uint64, f *big.
 	t0 := time.Now()
 	T, err := consensus.CertifiedNatThresholdWithMode(pool, total, new(big.Rat).Set(f), mode)
 	tRepo.Add(int64(time.Since(t0)))
-	if d := time.Since(t0); d > 300*time.Millisecond && os.Getenv("C37_TIMING") != "" {
+	if d := time.Since(t0); d > time.Second && os.Getenv("C37_TIMING") != "" {
 		fmt.Fprintf(os.Stderr, "slow %.2fs %s\n", d.Seconds(), class)
 	}
 	known := mode == consensus.ConsensusModeCPraos || mode == consensus.ConsensusModeTPraos
@@ -381,12 +381,24 @@ func (h *harness) eval(mode consensus.ConsensusMode, pool, total uint64, f *big.
 	dN := f.Denom()
 	g := new(big.Int).GCD(nil, nil, new(big.Int).SetUint64(P), new(big.Int).SetUint64(Q)).Uint64()
 	p, q := P/g, Q/g
-	if q <= 64 && uint64(dN.BitLen())*p <= 4<<20 {
+	if q <= 2048 && uint64(dN.BitLen())*p <= 4<<20 {
 		t1 := time.Now()
 		verdict := certificate(T, cN, dN, p, q, k)
 		tCert.Add(int64(time.Since(t1)))
 		if verdict == "" {
 			c.Eval(class, "floor-confirmed:exact-certificate")
+			if q <= 6 && total <= 6 {
+				// self-check of the harness: oracle 2 must agree with oracle 1 wherever both apply
+				ref, ok, _ := intervalFloor(cN, dN, new(big.Int).SetUint64(p), new(big.Int).SetUint64(q), k, 2)
+				switch {
+				case !ok:
+					c.Add("selfcheck_interval_undecided_where_certificate_decides", 1)
+				case ref.Cmp(T) == 0:
+					c.Add("selfcheck_interval_agrees_with_certificate", 1)
+				default:
+					c.Internal("oracle 2 (interval) = %s but oracle 1 (certificate) confirms %s for %s", ref, T, desc())
+				}
+			}
 			return result{T, "exact"}
 		}
 		kind := "generic"
@@ -408,6 +420,7 @@ func (h *harness) eval(mode consensus.ConsensusMode, pool, total uint64, f *big.
 	if !ok {
 		c.Eval(class, "undecided-by-interval-reference")
 		c.Add("interval_undecided", 1)
+		c.Note("interval reference undecided (no verdict): " + desc())
 		return result{T, "undecided"}
 	}
 	if bits > k+192 {
@@ -439,9 +452,9 @@ func be(v *big.Int, n int) []byte {
 	return v.FillBytes(make([]byte, n))
 }
 
-// compOK limits the (expensive, threshold-recomputing) components call to the first two Praos outputs.
+// compOK limits the (expensive, threshold-recomputing) components call to the first Praos output.
 func compOK(o []byte, outs [][]byte) bool {
-	return len(outs) >= 2 && (&o[0] == &outs[0][0] || &o[0] == &outs[1][0])
+	return len(outs) >= 1 && &o[0] == &outs[0][0]
 }
 
 func (h *harness) eligibility(mode consensus.ConsensusMode, pool, total uint64, f *big.Rat, T *big.Int, class string, withComponents bool, praosOutputs [][]byte, praosValues []*big.Int) {
@@ -558,28 +571,25 @@ func main() {
 			if new(big.Int).GCD(nil, nil, big.NewInt(a), big.NewInt(b)).Int64() != 1 {
 				continue // same rational as an earlier a/b
 			}
-			fs = append(fs, fval{big.NewRat(a, b), fmt.Sprintf("%d/%d", a, b), true, false})
+			fs = append(fs, fval{big.NewRat(a, b), fmt.Sprintf("%d/%d", a, b), true, false, false})
 		}
 	}
 	if Bmax < 20 {
-		fs = append(fs, fval{big.NewRat(1, 20), "1/20", true, false}, fval{big.NewRat(19, 20), "19/20", true, false})
+		fs = append(fs, fval{big.NewRat(1, 20), "1/20", true, false, false}, fval{big.NewRat(19, 20), "19/20", true, false, false})
 	}
 	js := []uint{8, 64, 256, 500, 512, 600, 2000}
 	if c.Thorough() {
 		js = []uint{2, 3, 8, 16, 32, 64, 128, 255, 256, 257, 300, 400, 500, 511, 512, 513, 600, 1000, 2000, 5000}
 	}
 	for _, j := range js {
-		fs = append(fs, fval{ratPow2(j), fmt.Sprintf("2^-%d", j), false, false})
-		fs = append(fs, fval{new(big.Rat).Sub(big.NewRat(1, 1), ratPow2(j)), fmt.Sprintf("1-2^-%d", j), false, false})
+		fs = append(fs, fval{ratPow2(j), fmt.Sprintf("2^-%d", j), false, false, false})
+		fs = append(fs, fval{new(big.Rat).Sub(big.NewRat(1, 1), ratPow2(j)), fmt.Sprintf("1-2^-%d", j), false, false, false})
 	}
 	for _, j := range []uint{600, 3000, 20000} {
-		bases := []*big.Rat{big.NewRat(3, 4), big.NewRat(7, 8)}
-		if c.Thorough() || j == 600 {
-			bases = append(bases, big.NewRat(5, 9))
-		}
+		bases := []*big.Rat{big.NewRat(3, 4), big.NewRat(7, 8), big.NewRat(5, 9)}
 		for bi, base := range bases {
-			if !c.Thorough() && j > 600 && bi > 0 {
-				continue // quick: the slow values only around 3/4
+			if !c.Thorough() && (bi > 0 || j == 3000) {
+				continue // quick: only 3/4 +- 2^-600 and 3/4 +- 2^-20000 (each call takes seconds in the code under test)
 			}
 			fs = append(fs, fval{new(big.Rat).Add(base, ratPow2(j)), fmt.Sprintf("%s+2^-%d", base.RatString(), j), false, true, j > 600})
 			fs = append(fs, fval{new(big.Rat).Sub(base, ratPow2(j)), fmt.Sprintf("%s-2^-%d", base.RatString(), j), false, true, j > 600})
@@ -647,8 +657,8 @@ func main() {
 		for fi := range fs {
 			if fs[fi].adv {
 				for ai := range advSigma {
-					if !c.Thorough() && fs[fi].slow && advSigma[ai].total != 2 {
-						continue // quick: the very slow values only at sigma = 1/2
+					if !c.Thorough() && fs[fi].slow && (advSigma[ai].total != 2 || m != consensus.ConsensusModeCPraos) {
+						continue // quick: the very slow values only at sigma = 1/2 in Praos mode
 					}
 					jobs = append(jobs, job{m, fi, ai})
 				}
@@ -687,7 +697,7 @@ func main() {
 			local = append(local, rec{new(big.Rat).SetFrac(new(big.Int).SetUint64(P), new(big.Int).SetUint64(s.total)), fv.r, r.T,
 				tcase{int(j.mode), s.pool, s.total, fv.r.Num().String(), fv.r.Denom().String(), class}})
 			if elig {
-				h.eligibility(j.mode, s.pool, s.total, fv.r, r.T, modeName(j.mode)+"|f="+fv.name+fmt.Sprintf("|sigma=%d/%d", s.pool, s.total), s.tag == "raw" && s.total <= 8, praosOutputs, praosValues)
+				h.eligibility(j.mode, s.pool, s.total, fv.r, r.T, modeName(j.mode)+"|f="+fv.name+fmt.Sprintf("|sigma=%d/%d", s.pool, s.total), s.tag == "raw" && s.total <= 4, praosOutputs, praosValues)
 			}
 		}
 		switch {
@@ -730,14 +740,14 @@ func main() {
 	cornerStakes := []stakes{{1, 2, "raw"}, {1, 1, "raw"}, {5, 3, "sigma>1"}, {0, 5, "pool=0"}, {math.MaxUint64 - 1, math.MaxUint64, "huge-denominator"}, {500_000_000, 1_000_000_000, "raw"}}
 	bigNum, _ := new(big.Int).SetString("1000000000000000000000000000000", 10)
 	outOfRange := []fval{
-		{big.NewRat(-1, 20), "-1/20", false, false}, {big.NewRat(-1, 1), "-1", false, false},
-		{new(big.Rat).Neg(ratPow2(600)), "-2^-600", false, false}, {new(big.Rat).SetFrac(new(big.Int).Neg(bigNum), one), "-10^30", false, false},
-		{big.NewRat(21, 20), "21/20", false, false}, {big.NewRat(2, 1), "2", false, false},
-		{new(big.Rat).Add(big.NewRat(1, 1), ratPow2(600)), "1+2^-600", false, false}, {new(big.Rat).SetFrac(bigNum, one), "10^30", false, false},
+		{big.NewRat(-1, 20), "-1/20", false, false, false}, {big.NewRat(-1, 1), "-1", false, false, false},
+		{new(big.Rat).Neg(ratPow2(600)), "-2^-600", false, false, false}, {new(big.Rat).SetFrac(new(big.Int).Neg(bigNum), one), "-10^30", false, false, false},
+		{big.NewRat(21, 20), "21/20", false, false, false}, {big.NewRat(2, 1), "2", false, false, false},
+		{new(big.Rat).Add(big.NewRat(1, 1), ratPow2(600)), "1+2^-600", false, false, false}, {new(big.Rat).SetFrac(bigNum, one), "10^30", false, false, false},
 	}
 	for _, m := range modes {
 		for _, s := range cornerStakes {
-			for _, fv := range []fval{{big.NewRat(0, 1), "0", false, false}, {big.NewRat(1, 1), "1", false, false}} {
+			for _, fv := range []fval{{big.NewRat(0, 1), "0", false, false, false}, {big.NewRat(1, 1), "1", false, false, false}} {
 				class := fmt.Sprintf("%s|f=%s|sigma=%d/%d|%s", modeName(m), fv.name, s.pool, s.total, s.tag)
 				r := h.eval(m, s.pool, s.total, fv.r, class)
 				if r.T != nil && r.oracle != "wrong" {
